@@ -6,6 +6,7 @@ import (
 	"github.com/nspcc-dev/neofs-node/pkg/local_object_storage/blobstor/common"
 	"github.com/nspcc-dev/neofs-node/pkg/local_object_storage/shard/mode"
 	"github.com/nspcc-dev/neofs-node/pkg/local_object_storage/util/logicerr"
+	"github.com/nspcc-dev/neofs-node/pkg/util/verifhook"
 	"go.uber.org/zap"
 )
 
@@ -79,6 +80,10 @@ func (s *Shard) GetMode() mode.Mode {
 }
 
 func (s *Shard) setModeStorage(m mode.Mode) error {
+	if err := verifhook.Fault("shard.setmode.storage"); err != nil {
+		return err
+	}
+
 	if s.info.Mode == m {
 		return nil
 	}
